@@ -73,6 +73,24 @@ package core
 //      that is always possible, "no node fits". In the other cases the machinery is left out (no
 //      context is ever installed, DESIGN's abstraction): waiting members then survive until a
 //      release, a roll-back or a timeout, which is what loads oracles (1) and (3) most.
+//  U1  Universe (domain audit). 1-3 groups of 1-3 gangs (up to 7 gangs), 1-6 pod slots per gang, min
+//      0-4 (also above the number of slots: never satisfiable), one or two namespaces with the same
+//      gang name in both; plugin argument DefaultMatchPolicy drawn from all three policies. Gang
+//      sources: pod annotations, PodGroup, and the deprecated lightweight-coscheduling labels (name
+//      and min-available as labels). Every field the code parses is also spelled in its other
+//      legal or tolerated ways, always with the same effective meaning: mode absent / illegal (=
+//      strict); match policy under the alias key, absent or illegal (= the plugin default);
+//      total-number absent / 0 / below min / illegal; waiting-time valid / illegal / negative;
+//      PodGroup scheduleTimeoutSeconds unset / 0 / positive. An annotation gang whose min-available
+//      is illegal or missing can never be initialised: nobody of its group may ever be released.
+//      Pod events also include: resync updates (identical old and new object), updates of a pod
+//      that ran to completion (phase Succeeded; only for pods the cache already knows as bound, where
+//      ignoring and processing the event mean the same), pods that are already bound when they are
+//      created, PodGroup deletes delivered as DeletedFinalStateUnknown; 8% of the sequential
+//      histories have 150-300 operations. In 6% of the sequential cases a pod update may change the
+//      gang the pod names (the annotation / label is mutable): the pod then is a member of the new
+//      gang and of no set of the former one; such a version is written only while the scheduler
+//      does not hold the pod and is delivered only then.
 //  G1  The gang-groups annotation (pod annotation or PodGroup annotation). A gang that names no
 //      other gang is its own group, however that is spelled: annotation absent, "", "null", "[]",
 //      illegal JSON, or a list naming only the gang itself. A list may name a gang that never
@@ -119,6 +137,10 @@ package core
 // reproduction of the known Gang.setChild defect; seq: generated sequential histories, every
 // oracle after every operation; conc: the informer's half and the scheduler's half of a
 // pre-generated history on two goroutines under the race detector.
+//
+// FINDING (domain audit)  onPodUpdate adds a pod whose update names another gang to the new gang but
+// never removes it from the former one (narrow signature C04/partition/pod-kept-by-former-gang; the
+// partition check sets exactly those pods aside, everything else is compared as usual).
 //
 // KNOWN DEFECT  A stale update (node name still empty) delivered after PostBind puts the pod into
 // PendingChildren while it is in BoundChildren (Gang.setChild). It is reported under the narrow
@@ -427,13 +449,21 @@ func c04Has(decl []string, id string) bool {
 }
 
 type c04Gang struct {
-	idx        int
-	name, id   string
-	crd        bool
-	slots      int
-	want       c04Cfg // what the API objects say (annotation gangs: constant)
-	omitPolicy bool   // leave the match-policy annotation out (only when the policy is the default)
-	pgRV       int
+	idx      int
+	name, id string
+	crd      bool
+	slots    int
+	want     c04Cfg // what the API objects say (annotation gangs: constant)
+	ns       string
+	// how the configuration is spelled in the annotations / labels (what the code parses)
+	lightweight bool            // annotation gang named by the deprecated lightweight-coscheduling labels (name and min-available as labels)
+	modeSpell   int             // strict only: 0 explicit, 1 annotation absent, 2 illegal value (both mean strict)
+	policySpell int             // 0 koordinator key, 1 alias key; only when the policy is the plugin's default: 2 absent, 3 illegal value
+	totalSpell  int             // total-number: 0 >= min, 1 absent, 2 "0", 3 below min, 4 illegal
+	waitSpell   int             // annotation gangs, waiting-time: 0 absent, 1 valid, 2 illegal, 3 negative
+	minSpell    int             // annotation gangs, min-available: 0 valid, 1 illegal value, 2 absent - with 1 and 2 the gang can never be initialised
+	movedAway   map[string]bool // pods whose gang name was changed to another gang by a pod update (seq)
+	pgRV        int
 	// crd gangs: the last PodGroup the cache was told about
 	cfgBegun, cfgDone bool
 	cfg               c04Cfg
@@ -443,22 +473,27 @@ type c04Gang struct {
 }
 
 type c04Ver struct {
-	del  bool
-	node string
-	rv   int
+	del        bool
+	node       string
+	rv         int
+	terminated bool     // status.phase Succeeded (only on versions of pods the cache already knows as bound)
+	gang       *c04Gang // the gang the pod names in this version
 }
 
 type c04Pod struct {
 	gang      *c04Gang
 	slot, inc int
 	name, key string
+	ns        string
 	uid       types.UID
 	cycleMu   sync.Mutex // conc: the scheduler acts on this pod / the informer delivers its delete
 	// API server
-	apiNode    string
-	apiDeleted bool
-	queue      []c04Ver // versions the informer has not delivered yet
-	delivered  int
+	apiNode       string
+	apiDeleted    bool
+	apiTerminated bool
+	apiGang       *c04Gang
+	queue         []c04Ver // versions the informer has not delivered yet
+	delivered     int
 	// what the cache was told (begun = the delivery started, done = it returned)
 	obj                   *corev1.Pod
 	addBegun, addDone     bool
@@ -472,6 +507,8 @@ type c04Pod struct {
 }
 
 func (p *c04Pod) known() bool { return p.addDone && !p.delBegun }
+
+func (g *c04Gang) neverInit() bool { return !g.crd && g.minSpell != 0 }
 
 type c04Intent struct {
 	inf  bool
@@ -535,8 +572,11 @@ type c04U struct {
 	// ctxMode: the gang scheduling context machinery of the plugin is part of the run (S7): every
 	// scheduler iteration starts with NextPod, pods popped from the queue pass PreEnqueue, every
 	// cycle runs BeforePreFilter, Permit=Success calls SucceedGangScheduling.
-	ctxMode bool
-	ctxGang *c04Gang // gang of the pod whose BeforePreFilter installed the current context (scheduler goroutine only)
+	defPolicy string             // args.DefaultMatchPolicy
+	latest    map[string]*c04Pod // latest incarnation per pod key
+	moves     bool               // seq: pod updates may change the pod's gang name
+	ctxMode   bool
+	ctxGang   *c04Gang // gang of the pod whose BeforePreFilter installed the current context (scheduler goroutine only)
 }
 
 func c04Pick[T any](u *c04U, cand []T, a int, key func(T) string) (T, bool) {
@@ -632,25 +672,29 @@ var c04SingleReprs = []int{c04ReprList, c04ReprList, c04ReprList, c04ReprAbsent,
 
 func c04NewUniverse(c *kit.Case, conc bool) *c04U {
 	r := c.R
-	u := &c04U{c: c, conc: conc, ctx: context.TODO()}
+	u := &c04U{c: c, conc: conc, ctx: context.TODO(), latest: map[string]*c04Pod{}}
 	u.h = &c04Handle{waiting: map[types.UID]*c04WP{}}
 	f := false
+	u.defPolicy = c04Policies[[]int{2, 2, 2, 0, 1}[r.Intn(5)]]
 	args := &config.CoschedulingArgs{
 		DefaultTimeout:       metav1.Duration{Duration: 600 * time.Second},
-		DefaultMatchPolicy:   extension.GangMatchPolicyOnceSatisfied,
+		DefaultMatchPolicy:   u.defPolicy,
 		EnablePreemption:     &f,
 		AwareNetworkTopology: &f,
 	}
 	u.mgr = &PodGroupManager{handle: u.h, args: args, cache: NewGangCache(args, nil, nil, nil, u.h)}
 	u.ctxMode = r.Pct(60)
-	ngroups := 1
-	if r.Pct(45) || (u.ctxMode && r.Pct(50)) {
+	u.moves = !conc && r.Pct(6)
+	ngroups := r.Weighted(50, 38, 12) + 1
+	if ngroups == 1 && u.ctxMode && r.Pct(50) {
 		ngroups = 2 // roll-backs of one group during the scheduling round of another need two
 	}
+	twoNS := r.Pct(25)
+	usedName := map[string]bool{}
 	gi := 0
 	for k := 0; k < ngroups; k++ {
 		n := r.Weighted(35, 40, 25) + 1
-		if k == 1 {
+		if k >= 1 {
 			n = r.Weighted(60, 40) + 1
 		}
 		mode := extension.GangModeStrict
@@ -663,17 +707,32 @@ func c04NewUniverse(c *kit.Case, conc bool) *c04U {
 		var grp []*c04Gang
 		var ids []string
 		for j := 0; j < n; j++ {
-			g := &c04Gang{idx: gi, name: fmt.Sprintf("g%d", gi), crd: allCRD || r.Pct(35), slots: r.Range(2, 5)}
-			g.id = c04NS + "/" + g.name
-			g.want = c04Cfg{min: r.Range(1, 3), mode: mode, policy: policy, timeout: 300}
+			g := &c04Gang{idx: gi, name: fmt.Sprintf("g%d", gi), ns: c04NS, crd: allCRD || r.Pct(35), slots: []int{1, 2, 2, 3, 3, 4, 4, 5, 5, 6}[r.Intn(10)], movedAway: map[string]bool{}}
+			if twoNS && r.Pct(40) {
+				g.ns = c04NS + "2"
+				// the same gang name in two namespaces: ids differ only in the namespace
+				if other := fmt.Sprintf("g%d", r.Intn(gi+1)); r.Pct(60) && !usedName[g.ns+"/"+other] {
+					g.name = other
+				}
+			}
+			usedName[g.ns+"/"+g.name] = true
+			g.id = g.ns + "/" + g.name
+			g.want = c04Cfg{min: []int{0, 1, 1, 1, 1, 1, 1, 1, 1, 2, 2, 2, 2, 2, 2, 2, 2, 3, 3, 3, 3, 3, 3, 4, 4}[r.Intn(25)], mode: mode, policy: policy, timeout: []int{300, 300, 300, 300, 300, 300, 300, -1, 0, 30}[r.Intn(10)]}
 			if mixed {
 				g.want.policy = kit.Pick(r, c04Policies)
 			}
-			if g.want.policy == extension.GangMatchPolicyOnceSatisfied && r.Pct(30) {
-				g.omitPolicy = true
-			}
 			if r.Pct(85) && g.want.min > g.slots {
 				g.want.min = g.slots
+			}
+			g.modeSpell = r.Weighted(70, 20, 10)
+			g.policySpell = r.Weighted(45, 20, 25, 10)
+			g.totalSpell = r.Weighted(60, 15, 8, 9, 8)
+			if !g.crd {
+				g.lightweight = r.Pct(15)
+				g.waitSpell = r.Weighted(60, 20, 10, 10)
+				if r.Pct(3) {
+					g.minSpell = 1 + r.Intn(2)
+				}
 			}
 			gi++
 			grp = append(grp, g)
@@ -697,28 +756,115 @@ func c04NewUniverse(c *kit.Case, conc bool) *c04U {
 	return u
 }
 
+// countDims records which configuration dimensions this case exercises (evidence).
+func (u *c04U) countDims() {
+	c := u.c
+	c.Count("dim_default_match_policy_"+u.defPolicy, 1)
+	c.Count(fmt.Sprintf("dim_gangs_%d", len(u.gangs)), 1)
+	nss, names := map[string]bool{}, map[string]int{}
+	for _, g := range u.gangs {
+		nss[g.ns] = true
+		names[g.name]++
+		c.Count(fmt.Sprintf("dim_min_%d", g.want.min), 1)
+		c.Count(fmt.Sprintf("dim_slots_%d", g.slots), 1)
+		if g.want.min > g.slots {
+			c.Count("dim_min_above_slots", 1)
+		}
+		if g.lightweight {
+			c.Count("dim_source_lightweight_labels", 1)
+		} else if g.crd {
+			c.Count("dim_source_podgroup", 1)
+			c.Count(fmt.Sprintf("dim_podgroup_timeout_%s", map[bool]string{true: "unset", false: map[bool]string{true: "zero", false: "positive"}[g.want.timeout == 0]}[g.want.timeout < 0]), 1)
+		} else {
+			c.Count("dim_source_annotation", 1)
+		}
+		if g.neverInit() {
+			c.Count("dim_min_available_illegal_or_missing", 1)
+		}
+		if g.want.mode == extension.GangModeStrict {
+			c.Count(fmt.Sprintf("dim_mode_strict_spelled_%s", []string{"explicit", "absent", "illegal"}[g.modeSpell]), 1)
+		}
+		ps := g.policySpell
+		if ps >= 2 && g.want.policy != u.defPolicy {
+			ps -= 2
+		}
+		c.Count(fmt.Sprintf("dim_policy_spelled_%s", []string{"koordinator_key", "alias_key", "absent", "illegal"}[ps]), 1)
+		c.Count(fmt.Sprintf("dim_total_number_%s", []string{"ok", "absent", "zero", "below_min", "illegal"}[g.totalSpell]), 1)
+		if !g.crd {
+			c.Count(fmt.Sprintf("dim_waiting_time_%s", []string{"absent", "valid", "illegal", "negative"}[g.waitSpell]), 1)
+		}
+	}
+	if len(nss) > 1 {
+		c.Count("dim_two_namespaces", 1)
+	}
+	for _, n := range names {
+		if n > 1 {
+			c.Count("dim_same_gang_name_in_two_namespaces", 1)
+		}
+	}
+	if u.moves {
+		c.Count("dim_pod_moves_enabled", 1)
+	}
+}
+
 func (u *c04U) describe() string {
-	s := fmt.Sprintf("scheduling-context machinery=%v; ", u.ctxMode)
+	s := fmt.Sprintf("scheduling-context machinery=%v default-match-policy=%s pod-moves=%v; ", u.ctxMode, u.defPolicy, u.moves)
 	for _, g := range u.gangs {
 		src := "annotation"
 		if g.crd {
 			src = "podgroup"
+		} else if g.lightweight {
+			src = "lightweight-labels"
 		}
 		ann, present := c04GroupsAnnotation(g.want)
 		if !present {
 			ann = "<absent>"
 		}
-		s += fmt.Sprintf("%s:%s min=%d slots=%d %s %s groups=%q; ", g.name, src, g.want.min, g.slots, g.want.mode, g.want.policy, ann)
+		s += fmt.Sprintf("%s:%s min=%d slots=%d %s %s groups=%q spell(mode=%d policy=%d total=%d wait=%d min=%d timeout=%d); ", g.id, src, g.want.min, g.slots, g.want.mode, g.want.policy, ann, g.modeSpell, g.policySpell, g.totalSpell, g.waitSpell, g.minSpell, g.want.timeout)
 	}
 	return s
 }
 
+// c04Spell writes mode, match policy and total number the way the gang spells them. Every spelling
+// parses (by the code's documented defaults) to the effective configuration cfg.
+func (u *c04U) spell(g *c04Gang, cfg c04Cfg, ann map[string]string) {
+	switch {
+	case cfg.mode != extension.GangModeStrict || g.modeSpell == 0:
+		ann[extension.AnnotationGangMode] = cfg.mode
+	case g.modeSpell == 2:
+		ann[extension.AnnotationGangMode] = "Sloppy" // illegal: strict
+	}
+	ps := g.policySpell
+	if ps >= 2 && cfg.policy != u.defPolicy {
+		ps -= 2
+	}
+	switch ps {
+	case 0:
+		ann[extension.AnnotationGangMatchPolicy] = cfg.policy
+	case 1:
+		ann[extension.AnnotationAliasGangMatchPolicy] = cfg.policy
+	case 3:
+		ann[extension.AnnotationGangMatchPolicy] = "whenever" // illegal: the plugin's default policy
+	}
+	switch g.totalSpell {
+	case 0:
+		ann[extension.AnnotationGangTotalNum] = strconv.Itoa(maxC04(g.slots, cfg.min))
+	case 2:
+		ann[extension.AnnotationGangTotalNum] = "0"
+	case 3:
+		ann[extension.AnnotationGangTotalNum] = strconv.Itoa(cfg.min - 1)
+	case 4:
+		ann[extension.AnnotationGangTotalNum] = "many"
+	}
+}
+
 var c04T0 = time.Date(2024, 1, 1, 0, 0, 0, 0, time.UTC)
 
-func (u *c04U) podObject(p *c04Pod, node string, rv int) *corev1.Pod {
-	g := p.gang
+func (u *c04U) podObject(p *c04Pod, v c04Ver) *corev1.Pod {
+	g := v.gang
+	node := v.node
 	pod := &corev1.Pod{
-		ObjectMeta: metav1.ObjectMeta{Namespace: c04NS, Name: p.name, UID: p.uid, ResourceVersion: strconv.Itoa(rv),
+		ObjectMeta: metav1.ObjectMeta{Namespace: p.ns, Name: p.name, UID: p.uid, ResourceVersion: strconv.Itoa(v.rv),
 			CreationTimestamp: metav1.Time{Time: c04T0}, Labels: map[string]string{}, Annotations: map[string]string{}},
 		Spec:   corev1.PodSpec{NodeName: node, SchedulerName: "koord-scheduler"},
 		Status: corev1.PodStatus{Phase: corev1.PodPending},
@@ -726,19 +872,40 @@ func (u *c04U) podObject(p *c04Pod, node string, rv int) *corev1.Pod {
 	if node != "" {
 		pod.Status.Phase = corev1.PodRunning
 	}
+	if v.terminated {
+		pod.Status.Phase = corev1.PodSucceeded
+	}
 	if g.crd {
 		pod.Labels[v1alpha1.PodGroupLabel] = g.name
 		return pod
 	}
-	pod.Annotations[extension.AnnotationGangName] = g.name
-	pod.Annotations[extension.AnnotationGangMinNum] = strconv.Itoa(g.want.min)
-	pod.Annotations[extension.AnnotationGangTotalNum] = strconv.Itoa(maxC04(g.slots, g.want.min))
-	pod.Annotations[extension.AnnotationGangMode] = g.want.mode
-	if !g.omitPolicy {
-		pod.Annotations[extension.AnnotationGangMatchPolicy] = g.want.policy
+	min := strconv.Itoa(g.want.min)
+	if g.minSpell == 1 {
+		min = "two"
 	}
-	if v, present := c04GroupsAnnotation(g.want); present {
-		pod.Annotations[extension.AnnotationGangGroups] = v
+	if g.lightweight {
+		// nolint:staticcheck // the deprecated labels are still read
+		pod.Labels[extension.LabelLightweightCoschedulingPodGroupName] = g.name
+		if g.minSpell != 2 {
+			pod.Labels[extension.LabelLightweightCoschedulingPodGroupMinAvailable] = min
+		}
+	} else {
+		pod.Annotations[extension.AnnotationGangName] = g.name
+		if g.minSpell != 2 {
+			pod.Annotations[extension.AnnotationGangMinNum] = min
+		}
+	}
+	u.spell(g, g.want, pod.Annotations)
+	switch g.waitSpell {
+	case 1:
+		pod.Annotations[extension.AnnotationGangWaitTime] = "45s"
+	case 2:
+		pod.Annotations[extension.AnnotationGangWaitTime] = "soon"
+	case 3:
+		pod.Annotations[extension.AnnotationGangWaitTime] = "-5s"
+	}
+	if a, present := c04GroupsAnnotation(g.want); present {
+		pod.Annotations[extension.AnnotationGangGroups] = a
 	}
 	return pod
 }
@@ -751,17 +918,16 @@ func maxC04(a, b int) int {
 }
 
 func (u *c04U) pgObject(g *c04Gang, cfg c04Cfg, rv int) *v1alpha1.PodGroup {
-	to := int32(cfg.timeout)
 	pg := &v1alpha1.PodGroup{
-		ObjectMeta: metav1.ObjectMeta{Namespace: c04NS, Name: g.name, ResourceVersion: strconv.Itoa(rv),
+		ObjectMeta: metav1.ObjectMeta{Namespace: g.ns, Name: g.name, ResourceVersion: strconv.Itoa(rv),
 			CreationTimestamp: metav1.Time{Time: c04T0}, Annotations: map[string]string{}},
-		Spec: v1alpha1.PodGroupSpec{MinMember: int32(cfg.min), ScheduleTimeoutSeconds: &to},
+		Spec: v1alpha1.PodGroupSpec{MinMember: int32(cfg.min)},
 	}
-	pg.Annotations[extension.AnnotationGangMode] = cfg.mode
-	if !(g.omitPolicy && cfg.policy == extension.GangMatchPolicyOnceSatisfied) {
-		pg.Annotations[extension.AnnotationGangMatchPolicy] = cfg.policy
+	if cfg.timeout >= 0 { // -1: scheduleTimeoutSeconds not set; 0: set but illegal (the default applies)
+		to := int32(cfg.timeout)
+		pg.Spec.ScheduleTimeoutSeconds = &to
 	}
-	pg.Annotations[extension.AnnotationGangTotalNum] = strconv.Itoa(maxC04(g.slots, cfg.min))
+	u.spell(g, cfg, pg.Annotations)
 	if v, present := c04GroupsAnnotation(cfg); present {
 		pg.Annotations[extension.AnnotationGangGroups] = v
 	}
@@ -786,33 +952,32 @@ func (u *c04U) infCreate(a int, prebound bool) bool {
 	}
 	var fs []free
 	for _, g := range u.gangs {
-		last := make([]*c04Pod, g.slots)
-		for _, p := range g.pods {
-			last[p.slot] = p
-		}
 		for s := 0; s < g.slots; s++ {
-			if last[s] == nil {
+			last := u.latest[fmt.Sprintf("%s/%s-p%d", g.ns, g.name, s)]
+			if last == nil {
 				fs = append(fs, free{g, s, 0})
-			} else if last[s].delDone {
-				fs = append(fs, free{g, s, last[s].inc + 1})
+			} else if last.delDone {
+				fs = append(fs, free{g, s, last.inc + 1})
 			}
 		}
 	}
-	f, ok := c04Pick(u, fs, a, func(f free) string { return fmt.Sprintf("%s/%s-p%d", c04NS, f.g.name, f.slot) })
+	f, ok := c04Pick(u, fs, a, func(f free) string { return fmt.Sprintf("%s/%s-p%d", f.g.ns, f.g.name, f.slot) })
 	if !ok {
 		u.mu.Unlock()
 		return false
 	}
-	p := &c04Pod{gang: f.g, slot: f.slot, inc: f.inc, name: fmt.Sprintf("%s-p%d", f.g.name, f.slot)}
-	p.key = c04NS + "/" + p.name
-	p.uid = types.UID(fmt.Sprintf("%s.%d", p.name, p.inc))
+	p := &c04Pod{gang: f.g, apiGang: f.g, ns: f.g.ns, slot: f.slot, inc: f.inc, name: fmt.Sprintf("%s-p%d", f.g.name, f.slot)}
+	p.key = p.ns + "/" + p.name
+	p.uid = types.UID(fmt.Sprintf("%s.%s.%d", p.ns, p.name, p.inc))
 	if prebound {
 		p.apiNode = "n0"
+		u.c.Count("op_api_create_already_bound", 1)
 	}
 	u.rv++
-	p.queue = append(p.queue, c04Ver{node: p.apiNode, rv: u.rv})
+	p.queue = append(p.queue, c04Ver{node: p.apiNode, rv: u.rv, gang: f.g})
 	f.g.pods = append(f.g.pods, p)
 	u.pods = append(u.pods, p)
+	u.latest[p.key] = p
 	u.mu.Unlock()
 	u.op("I", "api-create %s uid=%s node=%q", p.key, p.uid, p.apiNode)
 	u.c.Count("op_api_create", 1)
@@ -838,13 +1003,51 @@ func (u *c04U) infTouch(a, b int) bool {
 		u.mu.Unlock()
 		return false
 	}
+	variant := (b / 2) % 16
+	if u.force != "" {
+		variant = 0
+	}
+	if variant == 3 && p.known() && len(p.queue) == 0 {
+		// informer resync: the handler gets an update whose old and new object are the cached one
+		obj := p.obj
+		u.mu.Unlock()
+		u.op("I", "resync %s (update with identical objects)", p.key)
+		u.mgr.cache.onPodUpdate(obj, obj)
+		u.c.Count("op_resync_update", 1)
+		return true
+	}
+	if variant == 7 && p.boundDone && !p.gang.crd && p.apiNode != "" {
+		p.apiTerminated = true // the pod ran to completion; only once the cache knows it as bound
+	}
+	if t := u.moveTargetLocked(p, b/32); (variant == 11 || variant == 12) && t != nil {
+		p.apiGang = t
+		u.c.Count("op_api_pod_renamed_to_other_gang", 1)
+	}
 	u.rv++
-	v := c04Ver{node: p.apiNode, rv: u.rv}
+	v := c04Ver{node: p.apiNode, rv: u.rv, terminated: p.apiTerminated, gang: p.apiGang}
 	p.queue = append(p.queue, v)
 	u.mu.Unlock()
-	u.op("I", "api-touch %s rv=%d node=%q", p.key, v.rv, v.node)
+	u.op("I", "api-touch %s rv=%d node=%q gang=%s terminated=%v", p.key, v.rv, v.node, v.gang.id, v.terminated)
 	u.c.Count("op_api_touch", 1)
 	return true
+}
+
+// moveTargetLocked: another gang of the same kind and namespace the pod could name instead of its
+// own (U1); nil when moves are off or the pod is assumed, terminated or has nowhere to go.
+func (u *c04U) moveTargetLocked(p *c04Pod, c int) *c04Gang {
+	if !u.moves || p.held || p.fw != 0 || p.apiTerminated {
+		return nil
+	}
+	var ts []*c04Gang
+	for _, g := range u.gangs {
+		if g != p.apiGang && g.ns == p.ns && g.crd == p.apiGang.crd && g.lightweight == p.apiGang.lightweight {
+			ts = append(ts, g)
+		}
+	}
+	if len(ts) == 0 {
+		return nil
+	}
+	return ts[c%len(ts)]
 }
 
 func (u *c04U) infDelete(a int) bool {
@@ -862,7 +1065,7 @@ func (u *c04U) infDelete(a int) bool {
 	}
 	p.apiDeleted = true
 	u.rv++
-	p.queue = append(p.queue, c04Ver{del: true, node: p.apiNode, rv: u.rv})
+	p.queue = append(p.queue, c04Ver{del: true, node: p.apiNode, rv: u.rv, gang: p.apiGang})
 	u.mu.Unlock()
 	u.op("I", "api-delete %s uid=%s", p.key, p.uid)
 	u.c.Count("op_api_delete", 1)
@@ -876,6 +1079,9 @@ func (u *c04U) infDeliver(a int, except *c04Pod) bool {
 	var cand []*c04Pod
 	for _, p := range u.pods {
 		if len(p.queue) > 0 && !(p == except && p.queue[0].del) {
+			if h := p.queue[0]; !h.del && h.gang != p.gang && (p.held || p.fw != 0 || p == except) {
+				continue // U1: a version that moves the pod to another gang is not delivered while the scheduler holds the pod
+			}
 			cand = append(cand, p)
 		}
 	}
@@ -910,7 +1116,24 @@ func (u *c04U) infDeliver(a int, except *c04Pod) bool {
 			}
 		}
 	} else {
-		obj = u.podObject(p, v.node, v.rv)
+		obj = u.podObject(p, v)
+		if v.gang != p.gang {
+			// U1: the pod now names another gang: it is a member there and no longer here
+			from := p.gang
+			for i, q := range from.pods {
+				if q == p {
+					from.pods = append(from.pods[:i:i], from.pods[i+1:]...)
+					break
+				}
+			}
+			from.movedAway[p.key] = true
+			delete(v.gang.movedAway, p.key)
+			p.gang = v.gang
+			p.slot = -1
+			v.gang.pods = append(v.gang.pods, p)
+			p.boundBegun, p.boundDone, p.staleAfterBound = false, false, false
+			u.c.Count("op_deliver_pod_moved_to_other_gang", 1)
+		}
 		p.addBegun = true
 		if v.node != "" {
 			p.boundBegun = true
@@ -939,9 +1162,12 @@ func (u *c04U) infDeliver(a int, except *c04Pod) bool {
 			u.c.Count("gang_groups_annotation_degenerate_"+k, 1)
 		}
 	default:
-		u.op("I", "deliver update %s uid=%s rv=%d node=%q stale-after-bound=%v", p.key, p.uid, v.rv, v.node, stale)
+		u.op("I", "deliver update %s uid=%s rv=%d node=%q gang=%s terminated=%v stale-after-bound=%v", p.key, p.uid, v.rv, v.node, v.gang.id, v.terminated, stale)
 		u.mgr.cache.onPodUpdate(old, obj)
 		u.c.Count("op_deliver_update", 1)
+		if v.terminated {
+			u.c.Count("op_deliver_update_terminated_pod", 1)
+		}
 		if stale {
 			u.c.Count("op_deliver_stale_update_after_postbind", 1)
 		}
@@ -1186,7 +1412,12 @@ func (u *c04U) infPG(a, b int, allowChange bool) bool {
 		}
 		u.mu.Unlock()
 		u.op("I", "podgroup delete %s", g.id)
-		u.mgr.cache.onPodGroupDelete(u.pgObject(g, cfg, g.pgRV))
+		if g.pgRV%4 == 0 {
+			u.mgr.cache.onPodGroupDelete(cache.DeletedFinalStateUnknown{Key: g.id, Obj: u.pgObject(g, cfg, g.pgRV)})
+			u.c.Count("op_podgroup_delete_tombstone", 1)
+		} else {
+			u.mgr.cache.onPodGroupDelete(u.pgObject(g, cfg, g.pgRV))
+		}
 		u.c.Count("op_podgroup_delete", 1)
 		return true
 	}
@@ -1210,7 +1441,7 @@ func (u *c04U) runInformer(it c04Intent, except *c04Pod) {
 	try := func(kind int) bool {
 		switch kind {
 		case c04ICreate:
-			return u.infCreate(it.a, false)
+			return u.infCreate(it.a, it.b%32 == 5) // now and then a pod that is already running somewhere
 		case c04ITouch:
 			return u.infTouch(it.a, it.b)
 		case c04IDeliver:
@@ -1257,12 +1488,12 @@ func (u *c04U) eligibleLocked(p *c04Pod) bool {
 	if !p.known() || p.apiNode != "" || p.boundBegun || p.fw != 0 || p.held {
 		return false
 	}
-	for _, q := range p.gang.pods {
-		if q != p && q.slot == p.slot && q.fw != 0 {
+	for _, q := range u.pods {
+		if q != p && q.key == p.key && q.fw != 0 {
 			return false
 		}
 	}
-	return true
+	return !p.apiTerminated
 }
 
 type c04Verdict struct{ sig, msg string }
@@ -1283,7 +1514,7 @@ func (u *c04U) holdingLocked(g *c04Gang, s c04Snap) (exists bool, w, b int) {
 		if !q.addBegun || s.delDone[q] {
 			continue
 		}
-		if !g.crd {
+		if !g.crd && !g.neverInit() {
 			exists = true
 		}
 		switch {
@@ -1368,7 +1599,7 @@ func (u *c04U) strict(p *c04Pod, after string, evs []c04Ev) *c04Verdict {
 	cfg := u.gangCfg(p.gang)
 	decl := u.declLocked(p.gang)
 	member := p.addDone && !p.delBegun
-	inited := !p.gang.crd || p.gang.cfgDone
+	inited := (!p.gang.crd || p.gang.cfgDone) && !p.gang.neverInit()
 	uniform := true
 	strictGang := map[string]bool{}
 	for _, g := range u.declGangsLocked(p.gang) {
@@ -1380,7 +1611,7 @@ func (u *c04U) strict(p *c04Pod, after string, evs []c04Ev) *c04Verdict {
 			uniform = false
 		}
 		if gc.mode == extension.GangModeStrict {
-			strictGang[g.name] = true
+			strictGang[g.id] = true
 		}
 	}
 	satisfied := u.satLocked(p.gang)
@@ -1412,7 +1643,7 @@ func (u *c04U) strict(p *c04Pod, after string, evs []c04Ev) *c04Verdict {
 	ws, _, rej := u.h.list()
 	checked := 0
 	for i, w := range ws {
-		if !strictGang[w.p.gang.name] {
+		if !strictGang[w.p.gang.id] {
 			continue
 		}
 		checked++
@@ -1865,7 +2096,7 @@ func (u *c04U) bindFinish(a int, outcome int) bool {
 	if outcome != 1 {
 		p.apiNode = "n1"
 		u.rv++
-		p.queue = append(p.queue, c04Ver{node: "n1", rv: u.rv})
+		p.queue = append(p.queue, c04Ver{node: "n1", rv: u.rv, gang: p.apiGang, terminated: p.apiTerminated})
 	}
 	if outcome == 0 {
 		p.boundBegun = true
@@ -1954,13 +2185,20 @@ func (u *c04U) runScheduler(it c04Intent, between []c04Intent) {
 
 func (u *c04U) checkPartition(where string) {
 	summ := u.mgr.GetGangSummaries()
-	u.mu.Lock()
+	if !u.mu.TryLock() {
+		u.c.Harness("%s: the harness lock is still held at a quiescent point (an operation returned without releasing it)", where)
+	}
 	type exp struct{ P, W, B sets.Set[string] }
 	want := map[string]*exp{}
 	stale := map[string]bool{}
+	moved := map[string]sets.Set[string]{}
 	for _, g := range u.gangs {
 		e := &exp{sets.New[string](), sets.New[string](), sets.New[string]()}
 		want[g.id] = e
+		moved[g.id] = sets.New[string]()
+		for k := range g.movedAway {
+			moved[g.id].Insert(k)
+		}
 		for _, p := range g.pods {
 			if !p.known() {
 				continue
@@ -1980,7 +2218,7 @@ func (u *c04U) checkPartition(where string) {
 	}
 	u.mu.Unlock()
 	var generic *c04Verdict
-	var staleOnly []string
+	var staleOnly, keptByFormer []string
 	note := func(sig, format string, a ...any) {
 		if generic == nil {
 			generic = &c04Verdict{sig, where + ": " + fmt.Sprintf(format, a...)}
@@ -1997,6 +2235,17 @@ func (u *c04U) checkPartition(where string) {
 		if e == nil {
 			note("C04/partition/unknown-gang", "gang %s exists in the cache but no pod or PodGroup ever named it", id)
 			continue
+		}
+		// recognised narrowly: a pod whose update names another gang now (U1) is still listed by its
+		// former gang. Those pods are set aside, everything else is compared as usual.
+		if mv := s.Children.Intersection(moved[id]).Difference(e.P).Difference(e.W).Difference(e.B); mv.Len() > 0 {
+			for _, k := range sets.List(mv) {
+				keptByFormer = append(keptByFormer, fmt.Sprintf("%s (still in gang %s)", k, id))
+			}
+			c := *s
+			c.Children, c.PendingChildren = s.Children.Difference(mv), s.PendingChildren.Difference(mv)
+			c.WaitingForBindChildren, c.BoundChildren = s.WaitingForBindChildren.Difference(mv), s.BoundChildren.Difference(mv)
+			s = &c
 		}
 		// the known defect, recognised narrowly: a pod the cache was told is bound re-enters Pending
 		// through a stale update (node name still empty) delivered after PostBind
@@ -2046,6 +2295,10 @@ func (u *c04U) checkPartition(where string) {
 	u.c.Count("partition_checks", 1)
 	if generic != nil {
 		u.c.Fail(generic.sig, "%s", generic.msg)
+	}
+	if len(keptByFormer) > 0 {
+		u.c.Fail("C04/partition/pod-kept-by-former-gang",
+			"%s: %v: a pod update changed the gang the pod names; the pod was added to the new gang but its former gang still lists it among its children (and in its pending / bound set)", where, keptByFormer)
 	}
 	if len(staleOnly) > 0 && !u.staleReported {
 		// Narrow signature of the known Gang.setChild defect. Reported without ending the case (the
@@ -2143,14 +2396,19 @@ func c04Gates(t *testing.T) {
 
 func TestVerifC04Seq(t *testing.T) {
 	c04Gates(t)
-	kit.Run(t, kit.Config{Property: "C04", Unit: "seq", Quick: 3500, Thorough: 150000,
+	kit.Run(t, kit.Config{Property: "C04", Unit: "seq", Quick: 3000, Thorough: 150000,
 		Rule: "sequential histories of 60-150 operations over 1-2 gang groups of 1-3 gangs (min 1-3, 2-5 pod slots, strict / non-strict, three match policies, annotation and PodGroup sources): API create/touch/delete of pods with lagging in-order informer delivery (stale updates after PostBind on purpose), PodGroup add / delete / updates of the spec (min, timeout) and annotation-only updates (match policy, mode, gang-group list - a gang leaves or joins a group, one event per PodGroup - and its spelling), gang-groups annotations in every degenerate spelling (absent, \"\", null, [], illegal JSON, self only, naming a gang that never exists), scheduling cycles (gate, Permit + AllowGangGroup, AfterPostFilter; in 60% of the cases with the plugin's scheduling-context machinery: NextPod first, PreEnqueue for popped pods, BeforePreFilter, SucceedGangScheduling, so that roll-backs of one group arrive during the scheduling round of another), wake-ups of signalled waiting pods, permit timeouts, bind success (PostBind) / failure (Unreserve) / applied-but-reported-failed (bound update before or after the Unreserve); oracles (1)(3) at every scheduler call, (4) after every operation; distinct = (policy, mode, per-gang min / waiting / bound counts) at each Permit decision; non-trivial = case with a release, a wait and a group rejection"},
 		func(c *kit.Case) {
 			u := c04NewUniverse(c, false)
+			u.countDims()
 			u.op("-", "universe %s", u.describe())
 			u.prefix()
 			u.checkPartition("after the prefix")
 			n := c.R.Range(60, 150)
+			if c.R.Pct(8) {
+				n = c.R.Range(150, 300)
+				c.Count("long_histories", 1)
+			}
 			its := c04GenIntents(c.R, n+8, false)
 			for i := 0; i < n; i++ {
 				it := its[i]
@@ -2225,10 +2483,11 @@ func c04PanicInHarness(stack string) (string, bool) {
 
 func TestVerifC04Conc(t *testing.T) {
 	c04Gates(t)
-	kit.Run(t, kit.Config{Property: "C04", Unit: "conc", Quick: 1000, Thorough: 45000,
+	kit.Run(t, kit.Config{Property: "C04", Unit: "conc", Quick: 900, Thorough: 45000,
 		Rule: "the same universes; a pre-generated history of 80-160 intents is split into the informer's half (pod create/touch/deliver/delete, PodGroup add / no-change update) and the scheduler's half (cycles, wake-ups, timeouts, bind results incl. applied-but-reported-failed with its late Unreserve) which run on two goroutines in 3 phases under the race detector with random yields between operations and at the entry of the Gang set transitions; oracles (1)(3) online at the scheduler goroutine against window bounds of the shadow truth, (4) at the quiescent point after each phase; distinct = Permit decision states plus the observed interleaving of each phase; non-trivial = case with a release, a wait and a group rejection"},
 		func(c *kit.Case) {
 			u := c04NewUniverse(c, true)
+			u.countDims()
 			u.op("-", "universe %s", u.describe())
 			u.prefix()
 			u.checkPartition("after the prefix")
@@ -2325,7 +2584,7 @@ type c04GangSpec struct {
 }
 
 type c04Step struct {
-	op   string // create deliver touch delete pg pg-delete api-join api-leave api-mode api-policy api-repr | permit nofit wake timeout bindok bindfail bindlost unreserve
+	op   string // create deliver touch delete pg pg-delete api-move api-join api-leave api-mode api-policy api-repr | permit nofit wake timeout bindok bindfail bindlost unreserve
 	key  string // pod "gN-pM" or gang "gN"; with an argument "gN>arg" (api-join: the gang to join, api-policy: the policy, api-repr: the spelling)
 	want Status // permit: expected status ("" = any); documents the script, a mismatch is a harness error
 }
@@ -2421,10 +2680,15 @@ var c04Scripts = []c04Script{
 		steps: []c04Step{{"create", "g0-p0", ""}, {"create", "g0-p1", ""}, {"create", "g1-p0", ""}, {"create", "g1-p1", ""}, {"deliver", "g0-p0", ""}, {"deliver", "g0-p1", ""}, {"deliver", "g1-p0", ""}, {"deliver", "g1-p1", ""},
 			{"permit", "g0-p0", Wait}, {"nofit", "g0-p1", ""}, {"permit", "g1-p0", Wait}, {"wake", "g0-p0", ""},
 			{"permit", "g1-p1", Success}, {"wake", "g1-p0", ""}, {"bindok", "g1-p0", ""}, {"bindok", "g1-p1", ""}}},
+	{name: "a pod update changes the gang the pod names (U1): a bound member of g0 moves to g1 and must no longer count for g0",
+		gangs: []c04GangSpec{{0, false, 2, 3, c04S, c04R}, {1, false, 1, 2, c04S, c04W}},
+		steps: []c04Step{{"create", "g0-p0", ""}, {"create", "g0-p1", ""}, {"deliver", "g0-p0", ""}, {"deliver", "g0-p1", ""}, {"permit", "g0-p0", Wait}, {"permit", "g0-p1", Success},
+			{"wake", "g0-p0", ""}, {"bindok", "g0-p0", ""}, {"bindok", "g0-p1", ""}, {"deliver", "g0-p0", ""}, {"deliver", "g0-p1", ""},
+			{"api-move", "g0-p0>g1", ""}, {"deliver", "g0-p0", ""}, {"create", "g0-p2", ""}, {"deliver", "g0-p2", ""}, {"permit", "g0-p2", Success}}},
 }
 
 func c04ScriptUniverse(c *kit.Case, sc c04Script) *c04U {
-	u := &c04U{c: c, ctx: context.TODO()}
+	u := &c04U{c: c, ctx: context.TODO(), latest: map[string]*c04Pod{}, defPolicy: extension.GangMatchPolicyOnceSatisfied}
 	u.h = &c04Handle{waiting: map[types.UID]*c04WP{}}
 	f := false
 	args := &config.CoschedulingArgs{DefaultTimeout: metav1.Duration{Duration: 600 * time.Second}, DefaultMatchPolicy: extension.GangMatchPolicyOnceSatisfied,
@@ -2432,7 +2696,7 @@ func c04ScriptUniverse(c *kit.Case, sc c04Script) *c04U {
 	u.mgr = &PodGroupManager{handle: u.h, args: args, cache: NewGangCache(args, nil, nil, nil, u.h)}
 	groups := map[int][]string{}
 	for i, gs := range sc.gangs {
-		g := &c04Gang{idx: i, name: fmt.Sprintf("g%d", i), crd: gs.crd, slots: gs.slots, want: c04Cfg{min: gs.min, mode: gs.mode, policy: gs.policy, timeout: 300}}
+		g := &c04Gang{idx: i, name: fmt.Sprintf("g%d", i), ns: c04NS, crd: gs.crd, slots: gs.slots, want: c04Cfg{min: gs.min, mode: gs.mode, policy: gs.policy, timeout: 300}, movedAway: map[string]bool{}}
 		g.id = c04NS + "/" + g.name
 		groups[gs.group] = append(groups[gs.group], g.id)
 		u.gangs = append(u.gangs, g)
@@ -2486,6 +2750,16 @@ func TestVerifC04Scripted(t *testing.T) {
 					}
 					u.mu.Unlock()
 					u.op("I", "api write to the PodGroup annotations: %s %s", st.op, st.key)
+				case "api-move":
+					u.mu.Lock()
+					if q, t := u.latest[u.force], u.byID[c04NS+"/"+arg]; q != nil && t != nil && !q.held && q.fw == 0 {
+						q.apiGang = t
+						u.rv++
+						q.queue = append(q.queue, c04Ver{node: q.apiNode, rv: u.rv, gang: t})
+						ok = true
+					}
+					u.mu.Unlock()
+					u.op("I", "api write: pod %s now names gang %s", key, arg)
 				case "pg-delete":
 					ok = u.infPG(0, 4*19, true)
 				case "bindlost":
